@@ -277,9 +277,18 @@ inductive SVerdict where
 
 def strLe (a b : Name) : Bool := decide (a ≤ b)
 
+/-- insertion into a sorted list -/
+def insertSorted (x : Name) : List Name → List Name
+  | [] => [x]
+  | y :: ys => if strLe x y then x :: y :: ys else y :: insertSorted x ys
+
+/-- Python `sorted(...)` of distinct names (insertion sort; structural, so that
+concrete instances evaluate in the kernel) -/
+def sortNames (l : List Name) : List Name := l.foldr insertSorted []
+
 /-- `get_stepper_method_wrapper_names` -/
 def wrapperNames (steppers : List Stepper) : List Name :=
-  ((steppers.flatMap (fun st => st.pyStages ++ st.methods.map (·.1))).eraseDups).mergeSort strLe
+  sortNames ((steppers.flatMap (fun st => st.pyStages ++ st.methods.map (·.1))).eraseDups)
 
 /-- `get_args(dest, method)` -/
 def Stepper.args (st : Stepper) (m : Name) : List Name :=
@@ -307,7 +316,7 @@ def checkStepperMethod (arrs : List PArr) (m : Name) (st : Stepper) : SVerdict :
     let props := stepperProps (st.args m)
     if subset props pa.props then SVerdict.ok
     else SVerdict.missing st.cls st.dest
-      (((props.filter (fun x => !pa.props.contains x)).eraseDups).mergeSort strLe)
+      (sortNames ((props.filter (fun x => !pa.props.contains x)).eraseDups))
 
 def firstSError {α : Type} (f : α → SVerdict) : List α → SVerdict
   | [] => SVerdict.ok
